@@ -241,6 +241,15 @@ class Analysis:
             # type(self)() - a new object of the same class (no store argument => fresh)
             return "F" if not args and not kw else join("F", *(args or ["N"]))
         recv = self.ev(f.value, env, cls) if isinstance(f, ast.Attribute) else None
+        if self.mode != "tree" and isinstance(f, ast.Name) and f.id in self.ix.classes and f.id not in FRESH_CTORS:
+            # an object built from graph-region arguments keeps them (QueryContext(graph), Collection(graph, ..),
+            # serializer(store)): what is reached through its attributes is in the region of what it was given
+            r = "N"
+            for x in list(args) + list(kw.values()):
+                if x in ("I", "U", "F"):
+                    r = join(r, x)
+            self.call_targets(e, f, recv, args, kw, env, cls)
+            return r
         if isinstance(f, ast.Name) and f.id in ("list", "set", "sorted", "tuple", "iter", "reversed", "frozenset") and args:
             return args[0]      # containers of graphs keep the region of their elements
         if isinstance(f, ast.Attribute) and f.attr in ("contexts", "graphs") and recv is not None:
